@@ -163,6 +163,13 @@ def _sample(ctx, behs, pred):
                     "transactions_in_history": len(b["txs"])})
 
 
+# every public mint / burn / recall entry point of the two resource managers and the vault blueprints: fungible mint, bucket burn,
+# vault burn (Account::burn -> package_burn), recall; non-fungible mint, mint_ruid, mint_single_ruid, bucket burn, vault burn by ids /
+# by amount, recall by ids / by amount, take by amount.  C03 and C04 require each to have executed successfully in the replayed set
+# (from the never-sampled boundary scripts e0..e5), with every supply and vault compared afterwards.
+ENTRY_POINTS = ["Mint", "Burn", "BurnInAccount", "Recall", "MintNF", "MintRuid", "MintSingleRuid", "BurnNFInAccount",
+                "BurnNFAmountInAccount", "RecallNF", "RecallNFAmount", "WithdrawNFAmount"]
+
 BND_RULE_Z = (" Composition boundary set (C10, never sampled): 2-3 overlapping base proofs of one vault in the auth zone in both orders "
               "(smaller first / larger first / equal), base proofs on two vaults, bucket-backed base proofs, non-fungible base proofs in both orders, "
               "fungible and non-fungible proofs mixed in the zone (the native code traps), dropped signature proofs; compose n in {<= smaller, "
@@ -175,9 +182,9 @@ ALL_OPS_CORE = ["IWithdraw", "ITakeFromWorktop", "ITakeAll", "IReturnToWorktop",
 NF_OPS_CORE = ["IWithdrawNF", "ITakeNF", "IMintNF", "IAssertNF"]
 PROOF_OPS = ["IAzProofOfAmount", "IAzProofOfAll", "IProofOfAmount", "IBucketProofOfAmount", "IBucketProofOfAll", "IPopFromAuthZone", "IPushToAuthZone", "ICloneProof",
              "IDropProof", "IDropAllProofs", "IDropAuthZoneRegularProofs", "IWithdraw", "IRecall", "IBurnInAccount", "IBurn", "IDeposit"]
-PROOF_OPS_NF = ["IAzProofOfNF", "IAzProofOfAll", "IProofOfNF", "IBucketProofOfNF", "IBucketProofOfAll", "IPopFromAuthZone", "ICloneProof", "IDropProof",
+PROOF_OPS_NF = ["IWithdrawNFAmount", "IRecallNFAmount", "IAzProofOfNF", "IAzProofOfAll", "IProofOfNF", "IBucketProofOfNF", "IBucketProofOfAll", "IPopFromAuthZone", "ICloneProof", "IDropProof",
                 "IWithdrawNF", "IRecallNF", "IBurnNFInAccount"]
-NF_OPS = ["IMintNF", "IMintNFWrongType", "IMintRuid", "IBurn", "IBurnNFInAccount", "IUpdateNFData", "IDepositBatch", "IWithdrawNF", "ITakeAll"]
+NF_OPS = ["IMintSingleRuid", "IBurnNFAmountInAccount", "IMintNF", "IMintNFWrongType", "IMintRuid", "IBurn", "IBurnNFInAccount", "IUpdateNFData", "IDepositBatch", "IWithdrawNF", "ITakeAll"]
 HIST_OPS = ["IWithdraw", "IWithdrawNF", "ITakeAll", "IDeposit", "IDepositBatch", "IMint", "IMintNF", "IBurn", "IBurnInAccount",
             "IBurnNFInAccount", "IRecall", "IProofOfAmount", "IUpdateNFData", "EndTx"]
 
@@ -281,8 +288,7 @@ def C03(ctx):
                   "every TotalSupply field (absent for the untracked resource) is compared with the database after every transaction, "
                   "so a balance and its event changing consistently is still seen. distinct = distinct manifests/histories with >= 2 instructions." + BND_RULE,
                   extra_samples=[lambda b: any(i["op"] in ("Mint", "Burn", "Recall") for i in b["txs"][-1]["ins"]) and b["txs"][-1]["ok"]],
-                  ops_ok=["Mint", "MintNF", "Burn", "BurnInAccount", "BurnNFInAccount", "Recall", "RecallNF", "Withdraw", "WithdrawNF",
-                          "Deposit", "DepositBatch"],
+                  ops_ok=ENTRY_POINTS + ["Withdraw", "WithdrawNF", "Deposit", "DepositBatch"],
                   errs=["InsufficientBalance", "InvalidAmount", "DropNonEmptyBucket"])
     _trace_supply(ctx, res, conservation=True)
     return res
@@ -335,7 +341,8 @@ def C43(ctx):
                    "universe is read back (live with fields / locked tombstone / absent), with vault id sets and supplies. "
                    "distinct = distinct histories with >= 2 instructions." + BND_RULE,
                    extra_samples=[lambda b: any(t["err"] == "KeyValueEntryLocked" for t in b["txs"])],
-                   ops_ok=["MintNF", "MintRuid", "Burn", "BurnNFInAccount", "UpdateNFData", "DepositBatch", "TakeAll", "WithdrawNF"],
+                   ops_ok=["MintNF", "MintRuid", "MintSingleRuid", "Burn", "BurnNFInAccount", "BurnNFAmountInAccount", "RecallNFAmount",
+                           "WithdrawNFAmount", "UpdateNFData", "DepositBatch", "TakeAll", "WithdrawNF"],
                    errs=["NonFungibleAlreadyExists", "KeyValueEntryLocked", "NonFungibleNotFound", "UnknownMutableFieldName",
                          "NonFungibleIdTypeDoesNotMatch", "InvalidNonFungibleIdType", "MissingId"])
 
@@ -353,8 +360,8 @@ def C04(ctx):
                   "CommittedIsPre, NoLocksOutsideTx. G: %(n)d model histories (%(txs)d transactions, %(ok)d committed successfully) replayed; "
                   "after EVERY transaction every vault balance field, every non-fungible vault's amount field AND its id index, and every "
                   "TotalSupply field are compared with the model. distinct = distinct histories with >= 2 instructions." + BND_RULE,
-                  ops_ok=["Withdraw", "WithdrawNF", "Mint", "MintNF", "Burn", "BurnInAccount", "Recall", "Deposit", "DepositBatch", "TakeAll"],
-                  errs=["InsufficientBalance", "DropNonEmptyBucket"])
+                  ops_ok=ENTRY_POINTS + ["Withdraw", "WithdrawNF", "Deposit", "DepositBatch", "TakeAll"],
+                  errs=["InsufficientBalance", "DropNonEmptyBucket", "NotEnoughAmount"])
     _trace_supply(ctx, res, conservation=False)
     return res
 
